@@ -101,7 +101,10 @@ def format_summary_with_schema(statement_type, status_counts,
         parts.append((status.name, counts))
 
     if use_passed_for_all:
-        counts_total = status_counts.get(Status.passed, 0)
+        # -- SUPPORT: Counts with status.name keys (dict) or Status keys.
+        counts_total = status_counts.get(Status.passed.name, None)
+        if counts_total is None:
+            counts_total = status_counts.get(Status.passed, 0)
         suffix = " passed"
     else:
         counts_total = status_counts.get("all", None)
